@@ -2332,6 +2332,8 @@ struct evrrul_s {
 	echs_scale_t cal;
 	/* proto-offset */
 	int pof;
+	/* seed of the next refill, in the rule's terms, i.e. local time */
+	echs_instant_t seed;
 
 	/* sequence counter */
 	size_t seq;
@@ -2416,18 +2418,20 @@ __make_evrrul(echs_event_t e, rrulsp_t rr, size_t nr)
 	this->cal = echs_instant_scale(e.from);
 	e.from = echs_instant_rescale(e.from, SCALE_GREGORIAN);
 	this->zon = zon = echs_instant_tzob(e.from);
+	/* rules are about local time, that's where refills start out */
+	this->seed = echs_instant_detach_tzob(e.from);
 	this->e = e = echs_event_to_utc(e);
 	this->pof = echs_instant_tzof(e.from, zon);
 
 	/* bang the first one */
-	this->rrul = fix_rrul_dflts(rr[0U], e.from);
+	this->rrul = fix_rrul_dflts(rr[0U], this->seed);
 	this->seq = 0U;
 	this->ref = nr;
 	that[0U] = this;
 	/* bang the rest borrowing some fields from the first one */
 	for (size_t i = 1U; i < nr; i++) {
 		this[i] = this[0U];
-		this[i].rrul = fix_rrul_dflts(rr[i], e.from);
+		this[i].rrul = fix_rrul_dflts(rr[i], this->seed);
 		this[i].seq = i;
 		that[i] = this + i;
 	}
@@ -2474,7 +2478,7 @@ refill(struct evrrul_s *restrict strm)
 	struct rrulsp_s *restrict rr = &strm->rrul;
 
 	assert(rr->freq > FREQ_NONE);
-	if (UNLIKELY(echs_nul_instant_p(strm->e.from))) {
+	if (UNLIKELY(echs_nul_instant_p(strm->seed))) {
 		return 0UL;
 	} else if (UNLIKELY(!rr->count)) {
 		return 0UL;
@@ -2482,7 +2486,7 @@ refill(struct evrrul_s *restrict strm)
 
 	/* fill up with the proto instant */
 	for (size_t j = 0U; j < GRP_CCH_OFF; j++) {
-		strm->cch[j] = strm->e.from;
+		strm->cch[j] = strm->seed;
 	}
 
 	/* now go and see who can help us */
@@ -2518,10 +2522,16 @@ refill(struct evrrul_s *restrict strm)
 
 	if (strm->ncch >= GRP_CCH_OFF) {
 		/* keep one for the next refill */
-		strm->e.from = strm->cch[--strm->ncch];
+		strm->seed = strm->cch[--strm->ncch];
+		strm->e.from = echs_instant_rescale(
+			strm->seed, SCALE_GREGORIAN);
+		if (strm->zon && !echs_instant_all_day_p(strm->e.from)) {
+			strm->e.from = echs_instant_utc(
+				strm->e.from, strm->zon);
+		}
 	} else {
 		/* take a note that we're at the end of the stream */
-		strm->e.from = echs_nul_instant();
+		strm->seed = strm->e.from = echs_nul_instant();
 	}
 
 	if (rr->count > 0) {
@@ -2535,19 +2545,20 @@ refill(struct evrrul_s *restrict strm)
 	if (UNLIKELY(strm->ncch == 0UL)) {
 		return 0UL;
 	}
+	/* utcify them all, they're local times of the rule's scale */
+	if (strm->zon) {
+		for (size_t i = 0U; i < strm->ncch; i++) {
+			echs_instant_t x = echs_instant_rescale(
+				strm->cch[i], SCALE_GREGORIAN);
+
+			if (LIKELY(!echs_instant_all_day_p(x))) {
+				strm->cch[i] = echs_instant_utc(x, strm->zon);
+			}
+		}
+	}
 	/* convert to target scale */
 	for (size_t i = 0U; i < strm->ncch; i++) {
 		strm->cch[i] = echs_instant_rescale(strm->cch[i], strm->cal);
-	}
-	/* utcify them all */
-	for (size_t i = 0U; i < strm->ncch; i++) {
-		int eof = echs_instant_tzof(strm->cch[i], strm->zon);
-
-		if (UNLIKELY(eof != strm->pof)) {
-			/* discrepancy, convert defo */
-			strm->cch[i] = echs_tzob_shift(
-				strm->cch[i], eof, strm->pof);
-		}
 	}
 	/* otherwise sort the array, just in case */
 	echs_instant_sort(strm->cch, strm->ncch);
